@@ -237,10 +237,11 @@ class Function:
             if name in cls.unique_name2task:
                 task = cls.unique_name2task[name]
                 if kill_me:
-                    if task != curr_task:
+                    if task != curr_task and curr_task in cls.our_tasks:
                         #
                         # it seems we can't cancel ourselves, so we
-                        # tell the reaper task to cancel us
+                        # tell the reaper task to cancel us; a task we didn't
+                        # start (eg, a file preamble run by reload) is never killed
                         #
                         cls.reaper_cancel(curr_task)
                         # wait to be canceled
